@@ -34,6 +34,16 @@ type Gate struct {
 	release chan struct{}
 	once    sync.Once
 	hit     int
+	// optional: release by itself when the untilNth occurrence of untilKind is observed
+	untilKind  string
+	untilNth   int
+	untilHit   int
+	untilMatch func(*sarama.VerifProdEvent) bool
+}
+
+// ReleaseOn makes the gate open by itself at the nth occurrence of kind.
+func (g *Gate) ReleaseOn(kind string, nth int, match func(*sarama.VerifProdEvent) bool) {
+	g.untilKind, g.untilNth, g.untilMatch = kind, nth, match
 }
 
 // Release lets the held goroutine continue (idempotent).
@@ -107,6 +117,12 @@ func (o *Observer) record(e Ev) {
 	e.Seq = len(o.evs)
 	o.evs = append(o.evs, e)
 	for _, g := range o.gates {
+		if g.untilKind != "" && g.untilKind == e.Kind && (g.untilMatch == nil || g.untilMatch(e.VerifProdEvent)) {
+			g.untilHit++
+			if g.untilHit == g.untilNth {
+				g.Release()
+			}
+		}
 		if g.kind == e.Kind && (g.match == nil || g.match(e.VerifProdEvent)) {
 			g.hit++
 			if g.hit == g.nth {
